@@ -8,6 +8,8 @@ import (
 	"go/types"
 	"strconv"
 	"strings"
+
+	"golang.org/x/tools/go/ssa"
 )
 
 // env: evaluation environment of a specification expression
@@ -861,6 +863,27 @@ func (g *gen) specCall(e *env, n *ast.CallExpr, want string, c *Clause) T {
 		fn := "box." + sortID(v.Sort)
 		g.declare(fn, fmt.Sprintf("(declare-fun %s (%s) Iface)\n(declare-fun un%s (Iface) %s)", fn, v.Sort, fn, v.Sort))
 		return T{S: sx(fn, v.S), Sort: sIface}
+	case "exhausted":
+		// exhausted(k): the current point was reached through the normal exit of loop k (its header's exit
+		// edge: every element visited), not through a break or return inside its body; false when unknown
+		if len(n.Args) != 1 {
+			return fail("exhausted(k)")
+		}
+		cv, ok := g.constExpr(n.Args[0])
+		if !ok {
+			return fail("exhausted: constant loop ordinal expected")
+		}
+		kk, _ := constant.Int64Val(cv)
+		var h *ssa.BasicBlock
+		for hb, o := range g.loopOrd {
+			if o == int(kk) {
+				h = hb
+			}
+		}
+		if h == nil {
+			return fail("exhausted: no loop %d", kk)
+		}
+		return T{S: g.viaLoopExit(h, g.curBlock, map[*ssa.BasicBlock]string{}), Sort: sBool}
 	case "maphas", "mapget":
 		// maphas(m, k) / mapget(m, k): key set and content of a Go map in the environment's heap
 		m := arg(0, sPtr)
